@@ -123,4 +123,21 @@ PROPS = {
             "NumMutationsComparedToReferenceSequence on rows with lower-case n or non-IUPAC letters",
         ],
     },
+    "C01": {
+        "harness": [{"cmd": "c01", "n": {"quick": 600, "thorough": 30000}, "extra": ["-per", "100"]}],
+        "rule": "random histories of 1-8 public operations (AddSequence with same-name / same-sequence / wrong-length "
+                "arguments, IgnoreIdentical, Append, AppendSeqIdentifier, Rename, RenameRegexp with literal patterns, "
+                "CleanNames, TrimNamesAuto, Sort, ShuffleSequences, FilterLength, Clear, Clone, SetSequenceChar, "
+                "Sample) on alignments and sequence sets started from 0-4 rows drawn from a 14-name universe built to "
+                "collide (a, a_0001, ' a', a:b ...), all three duplicate-name policies; after EVERY operation the "
+                "harness records NbSequences, Length, all rows in order, and for every name of the universe "
+                "GetSequence and GetSequenceIdByName; non-trivial = history with >= 2 operations; distinct = distinct histories",
+        "nontrivial": lambda m: m.get("nsteps", 0) >= 2,
+        "assumptions": [
+            "regular expressions of CleanNames modelled as hand-written scanners; RenameRegexp exercised with literal patterns",
+            "ShuffleSequences / Sample take the Intn / Perm draws as arguments (the harness replays the same seed)",
+            "Length() of an alignment that was emptied through a method promoted from the sequence bag is not judged "
+            "(the code keeps the old cached length; the property does not say) - the model reproduces it",
+        ],
+    },
 }
